@@ -68,13 +68,16 @@ Definition fast_select_terms (src argw : Z) (idx : list Z) : list Z :=
 Definition fast_select (src argw : Z) (idx : list Z) : Z :=
   lor_chain (fast_select_terms src argw idx).
 
-(* `<mask> & t1 | t2 | ... | tk` : the concat / select texts are NOT parenthesised as a
-   whole, and `&` binds tighter than `|`, so the mask reaches the first term only *)
+(* the masked assignment of a `t1 | t2 | ... | tk` text (concat / select).  Whether the text is
+   parenthesised under the mask is read off the source (Gen/FastOps.fast_mask_parenthesised):
+   with `mask & (t1 | ... | tk)` the mask applies to the whole chain; with `mask & t1 | ... | tk`
+   -- the defective earlier text -- `&` binds tighter than `|` and only t1 is masked. *)
 Definition masked_chain (m : Z) (ts : list Z) : Z :=
-  match ts with
-  | [] => 0
-  | t :: r => lor_chain (Z.land m t :: r)
-  end.
+  if fast_mask_parenthesised then Z.land m (lor_chain ts)
+  else match ts with
+       | [] => 0
+       | t :: r => lor_chain (Z.land m t :: r)
+       end.
 
 (* the value of the emitted expression of a net, as a function of (value, bitwidth) arguments *)
 Definition fast_pyexpr (o : op) (args : list (Z * Z)) : option Z :=
@@ -88,9 +91,9 @@ Definition fast_pyexpr (o : op) (args : list (Z * Z)) : option Z :=
   | o => fast_simple_func o (map fst args)
   end.
 
-(* the value of the text `<mask> & <expr text>` as Python parses it.  For the simple ops the
-   table comes from Gen/FastOps.v (Python's own parser decided the precedence: for 'x' the
-   mask lands on the `if`-branch only); a memory read text is a call, hence atomic. *)
+(* the value of the masked assignment's right-hand side as Python parses it.  For the simple ops
+   the table comes from Gen/FastOps.v (the text is assembled from the source's templates and parsed
+   by Python's own parser, which decides the precedence); a memory read text is a call: atomic. *)
 Definition fast_pymasked (o : op) (m : Z) (args : list (Z * Z)) : option Z :=
   match o with
   | OpConcat => Some (masked_chain m (fast_concat_terms args))
@@ -219,12 +222,11 @@ Definition binop_eqw (o : op) : bool :=
   | _ => false
   end.
 
-(* mux / concat / select whose destination is narrower than the natural result get the text
-   `mask & <unparenthesised expr>`, which Python does not parse as intended (see
-   C02_fast_truncating_refuted): such nets are outside the refinement theorem.  The
-   construction API never builds them (`<<=` truncates with a separate 's' net). *)
+(* Block.sanity_check_net's width rules that FastSimulation relies on.  While the masked
+   assignment text is parenthesised (fast_mask_parenthesised) nothing more is needed; with the
+   defective unparenthesised text, truncating mux / concat / select nets had to be excluded. *)
 Definition fast_op_ok (n : net) : bool :=
-  let el := fast_elides (nop n) (argws n) (width_of nl (ndest n)) in
+  let el := fast_elides (nop n) (argws n) (width_of nl (ndest n)) || fast_mask_parenthesised in
   match nop n with
   | OpMux => (width_of nl (arg n 1) =? width_of nl (arg n 2)) && el
   | OpConcat | OpSelect _ => el
